@@ -112,12 +112,22 @@ func (x *Exec) Close() {
 }
 
 func (x *Exec) worker(fresh bool) (*wk.Worker, error) {
+	return x.workerWith(fresh, 0)
+}
+
+func (x *Exec) workerWith(fresh bool, gomaxprocs int) (*wk.Worker, error) {
+	if gomaxprocs > 0 {
+		fresh = true
+	}
 	if x.W != nil && fresh {
 		x.W.Close()
 		x.W = nil
 	}
 	if x.W == nil {
-		w, err := wk.Start(x.Env.WorkerBin, wk.Env(x.Env.GoRoot, x.Env.GoMaxProcs))
+		if gomaxprocs == 0 {
+			gomaxprocs = x.Env.GoMaxProcs
+		}
+		w, err := wk.Start(x.Env.WorkerBin, wk.Env(x.Env.GoRoot, gomaxprocs))
 		if err != nil {
 			return nil, infra("start worker: %v", err)
 		}
@@ -297,7 +307,7 @@ func (x *Exec) doRun(op Op) (*StepRecord, error) {
 		}
 	}
 
-	w, err := x.worker(run.Fresh)
+	w, err := x.workerWith(run.Fresh, run.GoMaxProcs)
 	if err != nil {
 		return nil, err
 	}
